@@ -106,6 +106,19 @@ int main(int argc, char **argv) {
             SepPair_SP s1 = m1.checkSepPair(0, 1), s2 = m2.checkSepPair(0, 1);
             if (!s1 || !s2) { ctx.violation("pair_missing", {}, hs); }
             else for (auto &p : pl2) if (sat(*s1, p) != sat(*s2, p)) { ctx.violation("storage_order_matters", {}, hs, mcx::fmt("placement b=(%g,%g): given-order %s canonical %s", p.x[1], p.y[1], spstr(*s1).c_str(), spstr(*s2).c_str())); break; }
+            // ... then the whole-MATRIX transforms on the matrix this history built (SepMatrix::transform, transformClosedSubset over both nodes):
+            // sat(m, P) <=> sat(T(m), T(P)); and free() must remove the pair
+            if (s1 && d <= 2) for (int t = 0; t < 7; t++) for (int how = 0; how < 2; how++) {
+                SepMatrix mt(nullptr);
+                for (int k = 0; k < d; k++) { const Op &o = alpha[idx[k]]; if (o.order == 0) mt.addSep(0, 1, o.gt, DIRS[o.di], o.st, o.gap); else mt.addSep(1, 0, o.gt, DIRS[o.di], o.st, o.gap); }
+                if (how == 0) mt.transform(TF[t]); else mt.transformClosedSubset(TF[t], std::set<id_type>{0, 1});
+                SepPair_SP st = mt.checkSepPair(0, 1); ctx.count("transitions");
+                if (!st) { ctx.violation("pair_missing", {}, hs + mcx::fmt(" then %s #%d", how ? "transformClosedSubset" : "transform", t)); break; }
+                bool bad = false; for (auto &p : pl2) if (sat(*s1, p) != sat(*st, applyT(t, p))) { ctx.violation("matrix_transform_does_not_commute", {}, hs + mcx::fmt(" then %s #%d", how ? "transformClosedSubset({0,1})" : "transform", t), mcx::fmt("placement b=(%g,%g): before %s after %s", p.x[1], p.y[1], spstr(*s1).c_str(), spstr(*st).c_str())); bad = true; break; }
+                if (bad) break;
+            }
+            if (s1) { SepMatrix mf(nullptr); for (int k = 0; k < d; k++) { const Op &o = alpha[idx[k]]; if (o.order == 0) mf.addSep(0, 1, o.gt, DIRS[o.di], o.st, o.gap); else mf.addSep(1, 0, o.gt, DIRS[o.di], o.st, o.gap); }
+                mf.free(alpha[idx[0]].order ? 1 : 0, alpha[idx[0]].order ? 0 : 1); if (mf.checkSepPair(0, 1)) ctx.violation("free_leaves_constraint", {}, hs + " then free"); }
             ctx.done_case();
         } while (mcx::odo_next(idx, (int)alpha.size()) && !ctx.stopped());
     }
